@@ -125,6 +125,8 @@ def _case(ch):
         if same and ch.bool():
             let_from[str(i)] = ch.pick(same)
     usep = ch.sample(Q_PULSES, ch.int(1, 2)) if ch.int(0, 3) == 0 else []
+    if usep and ch.int(0, 2) == 0:
+        usep = usep + [usep[0]]  # the same module named again (A, B, A): order and repeats are kept
     native = ch.int(0, 3) == 0 and not usep
     return {"lets": lets, "reg": [rname, rsize], "body": body, "oo_seed": ch.int(0, 10**6), "usepulses": usep, "let_from": let_from, "native": native}
 
@@ -533,7 +535,35 @@ def build_oo_full(prog, seed):
         params = list(m["params"])
         cb.macro(m["name"], params if params or ch.bool() else None, inner if ch.bool() else inner.expression, unevaluated=not ev)
         modes.append("macro:" + ("eval" if ev else "lazy"))
-    fill(cb, prog["body"], set(), {})
+    body = prog["body"]
+    if body and ch.int(0, 2) == 0:
+        # build() in the middle (e.g. to look at the circuit so far), then go on adding - also
+        # INSIDE blocks that are already attached; the final build() must see everything
+        cut = ch.int(0, len(body))
+        fill(cb, body[:cut], set(), {})
+        holders = []
+        tail = []
+        for s_ in body[cut:]:
+            if s_[0] in ("seq", "par") and ch.bool():
+                bb = cb.block(parallel=(s_[0] == "par"))
+                holders.append((bb, s_[1]))
+            elif s_[0] == "sub" and ch.bool():
+                st0 = {}
+                c0 = None if s_[1] is None else cnt(s_[1], set(), st0)
+                holders.append((cb.subcircuit(c0), s_[2]))
+            else:
+                tail.append(s_)
+                fill(cb, [s_], set(), {})
+        cb.build()
+        modes.append("built-midway")
+        for bb, stmts in holders:
+            fill(bb, stmts, set(), {})
+        if holders:
+            # the held blocks were attached in their position before the tail statements that
+            # follow them were added, so the order of the body is preserved
+            pass
+        return cb.build(), modes
+    fill(cb, body, set(), {})
     return cb.build(), modes
 
 
@@ -619,6 +649,71 @@ def _full_cases():
     return gen.SEEDS.map(mk)
 
 
+# ------------------------------------------------------------------------------ Q-syntax pulse loading
+
+
+def _autoload_enum(tier):
+    for k in range(4):
+        yield {"k": k}
+
+
+def qsyntax_autoload(case):
+    """Q-syntax's default autoload_pulses="ignore" uses a pulse module when it can be imported
+    and keeps gates anonymous when it cannot - decided at every call: the same Q function is
+    called before and after its pulse module becomes importable (a session in which the user
+    fixes sys.path), and must agree with the text front end each time."""
+    import sys
+    import types
+
+    from jaqalpaq.qsyntax import circuit as qcircuit
+    from jaqalpaq.core import GateDefinition, Parameter, ParamType
+    from jaqalpaq.core.gatedef import BusyGateDefinition
+
+    k = case["k"]
+    name = "vlib_late_pulses_%d" % k
+    nq = 1 + k % 2
+    sys.modules.pop(name, None)
+
+    def program(Q):
+        Q.usepulses(name)
+        r = Q.register(2, "r")
+        Q.XL(*[r[i] for i in range(nq)])
+
+    def wrong(Q):
+        Q.usepulses(name)
+        r = Q.register(3, "r")
+        Q.XL(*[r[i] for i in range(nq + 1)])
+
+    text = f"from {name} usepulses *\nregister r[2]\nprepare_all\nXL " + " ".join(f"r[{i}]" for i in range(nq)) + "\nmeasure_all\n"
+    try:
+        st_, c1 = guard(lambda: qcircuit(program)(), what="qsyntax (module missing)")
+        if st_ == "err":
+            raise Violation("qsyntax-build-raised", f"module not importable: {c1}")
+        t1 = parse(text, autoload_pulses=False)
+        if not (c1 == t1) or generate(c1) != generate(t1) or c1.native_gates:
+            raise Violation("front-ends-differ", f"module not importable:\n{generate(c1)}\nvs text\n{generate(t1)}", where="autoload-missing")
+        mod = types.ModuleType(name)
+        gatesd = {
+            "prepare_all": BusyGateDefinition("prepare_all"),
+            "measure_all": BusyGateDefinition("measure_all"),
+            "XL": GateDefinition("XL", [Parameter(f"a{i}", ParamType.QUBIT) for i in range(nq)]),
+        }
+        mod.jaqal_gates = types.SimpleNamespace(ALL_GATES=gatesd)
+        sys.modules[name] = mod
+        st_, c2 = guard(lambda: qcircuit(program)(), what="qsyntax (module importable)")
+        if st_ == "err":
+            raise Violation("qsyntax-build-raised", f"module importable: {c2}")
+        t2 = parse(text, autoload_pulses=True)
+        if not (c2 == t2) or set(c2.native_gates) != set(gatesd) or c2.body.statements[1].gate_def is not gatesd["XL"]:
+            raise Violation("front-ends-differ", f"module importable now, Q-syntax native gates {sorted(c2.native_gates)}, text {sorted(t2.native_gates)}", where="autoload-late")
+        st_, c3 = guard(lambda: qcircuit(wrong)(), what="qsyntax (wrong arity)")
+        if st_ == "ok":
+            raise Violation("front-ends-differ", "a call with the wrong number of arguments is accepted although the pulse module is importable", where="autoload-late-arity")
+    finally:
+        sys.modules.pop(name, None)
+    return {"nontrivial": True, "classes": ["qubits:%d" % nq], "key": repr(case), "sample": {"text": text}}
+
+
 def _differs_only_by_wrap(a, b):
     strip = lambda t: [l for l in t.splitlines() if l.strip() not in ("prepare_all", "measure_all")]
     return strip(a) == strip(b)
@@ -628,4 +723,5 @@ def parts():
     return [
         Part("front-ends", gen.cases(_case), check, quick=4000, thorough=100000, min_nontrivial=0.2),
         Part("builder-api-full", _full_cases(), check_full, quick=2500, thorough=60000, min_nontrivial=0.2),
+        Part("qsyntax-autoload", None, qsyntax_autoload, quick=0, thorough=0, exhaustive=_autoload_enum, shards=1),
     ]
